@@ -39,13 +39,15 @@ def _scenario(draw, tier):
             else:
                 ops.append(["restart"])
         else:
-            k = draw(st.sampled_from(["step", "advance", "advance", "exchange", "restart"]))
+            k = draw(st.sampled_from(["step", "advance", "advance", "exchange", "restart", "scribble"]))
             if k == "step":
                 ops.append(["step"])
             elif k == "advance":
                 ops.append(["advance", draw(st.sampled_from([0, 1, 2, 5, 11, 30, 64]))])
             elif k == "exchange":
                 ops.append(["exchange", draw(st.integers(0, 2 ** 16))])
+            elif k == "scribble":
+                ops.append(["scribble"])
             else:
                 ops.append(["restart"])
         q = []
@@ -222,6 +224,18 @@ def execute(sc):
                         pos = h.target.draw(g, h.T if cfg["target"]["kind"] != "banana" else 1.0)
                         lc.op_exchange(h, pos, h.target.logpdf(pos))
                         stats["fault_exchange_installs_foreign_point"] += 1
+                    elif name == "scribble":
+                        # the caller re-uses its start array: the chain already recorded must read out unchanged
+                        S0, P0 = h.rows()
+                        st_arr = h.inputs["start"]
+                        st_arr += 1000.0 + np.arange(st_arr.size, dtype=float).reshape(st_arr.shape)
+                        stats["fault_caller_overwrites_start_array"] += 1
+                        S1, P1 = h.rows()
+                        if S1.shape != S0.shape or not np.array_equal(S1, S0) or not np.array_equal(P1, P0):
+                            _viol(V, "readout.pure", "%s: the recorded chain changed when the caller overwrote the start array it had "
+                                  "passed to the constructor (row(s) %r)" % (h.kind, np.nonzero((S1 != S0).any(axis=1))[0][:3].tolist()
+                                                                             if S1.shape == S0.shape else "shape"))
+                            break
                     elif name == "restart":
                         try:
                             old = lc.op_restart(h, "r%d" % restarts)
